@@ -1,6 +1,7 @@
 """C08 — A gene rule is a Boolean function and its text form is faithful."""
 from contracts import c07_knockout as C
 from contracts import c08_visitors as V
+from contracts import c02_remove_genes as RG
 from props._generic import run_property, replay_with_driver
 
 LEVEL = "other"
@@ -46,8 +47,16 @@ def run(rep):
         "assumed inverse to the constructors; node allocation modelled functionally: the function only builds). The directly recursive "
         "functions (_symbolic_gpr, _sympy_to_ast, _eval_gpr) carry a variant - height of the node / size of the expression decreases at "
         "every recursive call - so that `recursive call = own contract` is a well-founded induction. GPR.copy / __copy__ pass an "
-        "assumed deepcopy through."),
-        more=[(VISITOR_KEYS, V.HOOKS), (["GPR.from_symbolic._sympy_to_ast"], V.HOOKS_S2A)], lemmas=V.all_lemmas,
+        "assumed deepcopy through. "
+        "The last clause of the statement for remove_genes itself (contracts/c02_remove_genes.py, no context open, any model "
+        "and gene list): every reaction of the model with a non-empty rule that is not handed to Model.remove_reactions ends "
+        "with a rule whose value, for every set K of absent genes, is that of its old rule with K and the removed identifiers "
+        "absent (or without body only if the old rule is False with them absent), by the proved remover contracts applied to "
+        "the body at the call site; the reactions handed to Model.remove_reactions are exactly those whose rule is False with "
+        "the removed identifiers absent (remove_reactions set); every other rule is untouched. Assumed there: the visit of the "
+        "root GPR object (NodeTransformer.generic_visit on a node whose body is a node) and that rule trees of different GPR "
+        "objects are disjoint"),
+        more=[(VISITOR_KEYS, V.HOOKS), (["GPR.from_symbolic._sympy_to_ast"], V.HOOKS_S2A), (RG.KEYS, RG.HOOKS)], lemmas=V.all_lemmas,
         trusted=["ast.parse / re / sympy (assumed)", "rule trees are finite and acyclic",
                  "ast.NodeVisitor.visit dispatches on the node's class name to visit_<Class> or generic_visit (assumed contracts "
                  "_GeneRemover.visit / GPRWalker.visit whose cases are the proved method contracts)",
@@ -64,6 +73,8 @@ def run(rep):
                  "argument-less Symbol with a name, with the corresponding meaning; expressions and rule trees are finite (size / height "
                  "decrease to arguments / children); ast.Name(id=..) / ast.BoolOp(op=.., values=[..]) as functional allocation inside "
                  "_sympy_to_ast (assumed)",
+                 "remove_genes: _GeneRemover.visit on the root GPR object (body replaced by the visit of the body, attribute deleted for "
+                 "None), rule trees of different GPR objects disjoint; the remover constructor; gene_reaction_rule empty iff no body",
                  "sympy: Symbol(k) is true iff k is not absent, Or(*es) / And(*es) mean some / all of es (whatever simplification they "
                  "apply), a.equals(b) is True only for logically equivalent a, b, `==` of two Symbols is structural (assumed)"])
 
